@@ -52,8 +52,9 @@
 (***************************************************************************)
 EXTENDS RegSyncDefs, Integers, TLC
 
-CONSTANTS Scenarios,   \* set of [conf, src, tgt, plan]: src/tgt sets of <<repo, tag, img>>,
+CONSTANTS Scenarios,   \* sequence of sets of [conf, src, tgt, plan]: src/tgt sets of <<repo, tag, img>>,
                        \* plan a sequence of [op, mode, repo, tag, img] (op: run | move | del)
+                       \* (a sequence of sets: TLC's union of large sets of records is quadratic)
           Anchoring,   \* "asis" | "fixed": how filterList binds an expression (finding C18-1 / S14)
           PlatMatch,   \* "asis" | "fixed": tgtMatches after the platform lookup (finding C18-2)
           Chars,       \* name -> sequence of characters (only needed for Anchoring = "asis")
@@ -118,7 +119,7 @@ Load(s) ==
 Init == /\ phase = "setup" /\ conf = <<>> /\ plan = <<>> /\ world = {} /\ mode = "" /\ proc = <<>>
         /\ held = {} /\ cache = {} /\ errs = {} /\ before = {} /\ puts = {} /\ nw = 0 /\ exitc = 0
         /\ bkbad = "" /\ nrun = 0
-Setup == phase = "setup" /\ \E s \in Scenarios : Load(s)
+Setup == phase = "setup" /\ \E i \in DOMAIN Scenarios : \E s \in Scenarios[i] : Load(s)
 
 StartRun ==
   /\ phase = "idle" /\ plan # <<>> /\ Head(plan).op = "run"
